@@ -102,6 +102,12 @@ Proof.
     destruct Hs1 as [->|[m ->]]; [exact H|apply li_add_log, H].
   - (* TDecresc *) destruct (_ <? _); [discriminate|]. intros E; injection E as <-. exact H.
   - (* TPlay *) intros E. apply (li_exec_play ec s args lineno s2 Hec H E).
+  - (* TMetaText *) destruct (_ && _); [|discriminate]. intros E; injection E as <-. exact H.
+  - (* TTempoChange *) intros E. apply (exec_tempo_change_inv logs_inv) in E; [exact E| | |exact H].
+    + intros s0 v H0. exact H0.
+    + intros s0 f H0. exact H0.
+  - (* TSysEx *) intros E. apply exec_sysex_cases in E. destruct E as [[_ [m ->]]|[_ [Hl ->]]]; [apply li_runtime_error, H|exact H].
+  - (* TGSEffect *) intros E. apply exec_gs_effect_cases in E. destruct E as (evs & Hg & ->). exact H.
 Qed.
 
 (* ---- exec_f, run_source, compile ---- *)
